@@ -157,6 +157,8 @@ def _replay_route_vs_manual(shape):
         jops = [{'mantra_swap': {'token_in_denom': a, 'token_out_denom': bb, 'pool_identifier': pid}} for a, bb, pid in hops]
         if label == 'delivered_at_least_minimum_receive':
             return _replay_minimum_receive(shape, jops)
+        if label == 'every_hop_within_the_callers_tolerance':
+            return _replay_hop_tolerance(shape, jops)
         cands = []
         if all(k in m for k in ('reserve_x', 'reserve_y', 'reserve_z', 'reserve_w', 'offer')):
             cands.append(dict(x=m['reserve_x'], y=m['reserve_y'], z=m['reserve_z'], w=m['reserve_w'], offer=m['offer'],
@@ -230,6 +232,31 @@ def _replay_minimum_receive(shape, jops):
     return None
 
 
+def _replay_hop_tolerance(shape, jops):
+    """native: a deep first pool and a shallow last one, so that the LAST hop has a spread of several percent; with a 2% tolerance the route must be
+    refused -- with and without a (satisfiable) minimum_receive"""
+    from .c02 import _mints
+    from ..replayer import run_scenario
+    fees = (10 ** 15, 10 ** 15, 0, [])
+    big, small, offer = 10 ** 9, 10 ** 4, 10 ** 3
+    last_pool = ROUTES[shape][-1][2]
+    r1 = (big, big) if last_pool != 'p1' else (small, small)
+    r2 = (small, small) if last_pool == 'p2' else (big, big)
+    base = [{'op': 'set_pool', 'pool': pool_json('p1', ['uA', 'uB'], [6, 6], list(r1), 'constant_product', fees)},
+            {'op': 'set_pool', 'pool': pool_json('p2', ['uB', 'uC'], [6, 6], list(r2), 'constant_product', fees)}]
+    base += _mints([('pool_manager', [('uA', r1[0]), ('uB', r1[1] + r2[0]), ('uC', r2[1])]), ('trader', [('uA', offer)])])
+    for minimum in (None, 1):
+        sc = {'setup': {}, 'steps': base + [{'op': 'execute', 'contract': 'pool_manager', 'sender': 'trader', 'funds': [coin_j('uA', offer)],
+                                             'msg': {'execute_swap_operations': {'operations': jops, 'max_slippage': '0.02', 'receiver': '@alice',
+                                                                                 'minimum_receive': None if minimum is None else str(minimum)}}}]}
+        res = run_scenario(sc).get('results')
+        if res and 'ok' in res[-1]:
+            why = ('route %s with max_slippage 2%% executes although its last hop trades %d against a %d:%d pool (spread of several percent), minimum_receive=%s'
+                   % (shape, offer, small, small, minimum))
+            return sc, (lambda o, w=why: (True, w))
+    return None
+
+
 def _ob_route(shape):
     hops = ROUTES[shape]
 
@@ -258,7 +285,9 @@ def _ob_route(shape):
         ch = Chain(I, CONTRACTS)
         pre = b.snapshot()
         mn = I.sym('minimum_receive', hi=U128)
-        st, resp = ch.execute('trader', PM, route_msg(ops, max_slippage=Some(5 * 10 ** 17), receiver=Some('alice'), minimum=Some(mn)), [coin_v('uA', o)])
+        tol = I.sym('max_slippage_atomics', hi=U128)
+        cap = z3.If(smt.toz(tol) < 5 * 10 ** 17, tol, 5 * 10 ** 17)
+        st, resp = ch.execute('trader', PM, route_msg(ops, max_slippage=Some(tol), receiver=Some('alice'), minimum=Some(mn)), [coin_v('uA', o)])
         if st != 'ok':
             I.outcome('route_rejected')
             return
@@ -270,6 +299,9 @@ def _ob_route(shape):
         prev = o
         for k, ((din, amt_in, ask, vals), (a, bb, pid)) in enumerate(zip(calls, hops)):
             I.check('hop_consumes_exactly_the_previous_output', smt.And(din == a, smt.Eq(amt_in, prev)))
+            # the caller's tolerance (capped at 50%) binds EVERY hop: spread / (return + spread) of the hop's own pricing result
+            ret_k, slip_k = vals[0], vals[1]
+            I.check('every_hop_within_the_callers_tolerance', smt.Or(smt.Eq(ret_k + slip_k, 0), I.ctx.fdiv(simp(slip_k * E18), simp(ret_k + slip_k)) <= cap))
             prev = vals[0]
         final = hops[-1][1]
         I.check('delivered_at_least_minimum_receive', b.get('alice', final) - pre.get('alice', final) >= mn)
@@ -296,7 +328,7 @@ for _shape in ROUTES:
     obligation('C04', 'R1.route_hops_%s' % _shape, entries=['execute', 'execute_swap_operations', 'perform_swap', 'assert_operations'], kind='S',
                tier='thorough' if len(ROUTES[_shape]) > 3 else 'quick',
                statement='routed swap %s (incl. routes that return to the offer denom): every hop offers exactly what the previous hop returned (the first: the funds sent); '
-                         'only the final output reaches the receiver and it is at least the stated minimum_receive (symbolic); the sender pays the offer only; per denom the fee collector receives the protocol fees and the '
+                         'every hop is within the caller max_slippage (symbolic, capped at 50%%); only the final output reaches the receiver and it is at least the stated minimum_receive (symbolic); the sender pays the offer only; per denom the fee collector receives the protocol fees and the '
                          'supply drops by the burn fees of the hops that pay out that denom; the contract balance beyond the summed reserves is unchanged' % _shape,
                bounds='pools uA/uB and uB/uC, reserves/offer/excess [0,2^128), real is_valid fees; pricing kernel abstracted (results arbitrary u128)', covers=['ok'],
                abstractions=[ABSTRACT_PRICING_NOTE], opts={'abstract': ABSTRACT_PRICING}, replay=_replay_route_vs_manual(_shape))(_ob_route(_shape))
